@@ -758,6 +758,9 @@ func (x *Exec) goEffect(fr *Frame, st *State, ins *ssa.Go) {
 		}
 		cur := x.load(st, p)
 		x.smt.wellFormed(cur)
+		if !assigned[i] && x.closureOnlyReads(fn, i) {
+			continue // the goroutine only reads this captured object
+		}
 		havocVal(cur)
 		if assigned[i] {
 			x.store(st, p, x.smt.freshValue(p.Elem, "go."+fn.FreeVars[i].Name()))
@@ -766,6 +769,68 @@ func (x *Exec) goEffect(fr *Frame, st *State, ins *ssa.Go) {
 	for _, a := range ins.Call.Args {
 		havocVal(x.val(fr, st, a))
 	}
+}
+
+// closureOnlyReads: every use of captured variable i inside fn is a load whose value is only
+// passed to calls that have no effect on their arguments (pure / nofx / model-field reads,
+// accessor-style getters, logging), compared, or type-asserted.
+func (x *Exec) closureOnlyReads(fn *ssa.Function, i int) bool {
+	return x.onlyRead(fn.FreeVars[i], true, 0)
+}
+
+// onlyRead: v (an address when isAddr, else a value) is only loaded from, navigated through
+// fields, compared, boxed into interfaces, or passed to calls that leave their arguments alone.
+func (x *Exec) onlyRead(v ssa.Value, isAddr bool, depth int) bool {
+	if depth > 6 || v.Referrers() == nil {
+		return depth <= 6
+	}
+	for _, ref := range *v.Referrers() {
+		switch u := ref.(type) {
+		case *ssa.DebugRef, *ssa.BinOp, *ssa.If:
+		case *ssa.UnOp:
+			if !x.onlyRead(u, false, depth+1) {
+				return false
+			}
+		case *ssa.FieldAddr:
+			if !x.onlyRead(u, true, depth+1) {
+				return false
+			}
+		case *ssa.Field, *ssa.TypeAssert, *ssa.MakeInterface, *ssa.ChangeInterface, *ssa.ChangeType, *ssa.Extract, *ssa.Phi:
+			if !x.onlyRead(u.(ssa.Value), false, depth+1) {
+				return false
+			}
+		case *ssa.Store:
+			if isAddr && u.Addr == v {
+				return false // written through
+			}
+			if !isAddr && u.Val == v {
+				return false // escapes into memory
+			}
+		case ssa.CallInstruction:
+			if !x.callLeavesArgsAlone(u.Common()) {
+				return false
+			}
+		default:
+			return false
+		}
+	}
+	return true
+}
+
+func (x *Exec) callLeavesArgsAlone(c *ssa.CallCommon) bool {
+	key, full := calleeKey(c)
+	if spec := x.DB.lookup(key, full); spec != nil {
+		switch spec.Kind {
+		case "pure", "nofx", "mf":
+			return len(spec.Havoc) == 0 && len(spec.HavocMF) == 0 && len(spec.SetMF) == 0
+		}
+		return false
+	}
+	if i := strings.LastIndex(key, ")."); i >= 0 {
+		n := key[i+2:]
+		return strings.HasPrefix(n, "Get") || strings.HasPrefix(n, "Is") || strings.HasPrefix(n, "Has")
+	}
+	return false
 }
 
 // newRefIn allocates a reference on the path of st: its id is below every id handed out before,
